@@ -45,6 +45,13 @@ type shape struct {
 	// running invocation when its context is cancelled. Whether such an event is then
 	// still delivered is not judged (0 or 1 times); overlap, order and deadlock are.
 	cancelWaiter bool
+	// nestedSeq: the Sequential handler of type A publishes, from inside its body, an event
+	// of a second type to that type's own Sequential handler (two different handlers, so
+	// this is not the excluded "delivered back to itself" case)
+	nestedSeq bool
+	// twoBuses: two independent buses, each with one Sequential handler; the handler on the
+	// first bus waits (inside its body) until the handler on the second bus has run
+	twoBuses bool
 }
 
 type inst struct {
@@ -58,6 +65,10 @@ func (in *inst) Body() {
 	evt.Deliver = func(ti, slot, id int, ctx context.Context) {}
 	if s.replayRace {
 		in.bodyReplayRace()
+		return
+	}
+	if s.nestedSeq || s.twoBuses {
+		in.bodyIndependentHandlers()
 		return
 	}
 	bus := eventbus.New()
@@ -137,6 +148,54 @@ func (in *inst) Body() {
 	bus.Wait()
 }
 
+// bodyIndependentHandlers: two different Sequential handlers must not hinder each other -
+// one publishing to the other from inside its body (nestedSeq), or one waiting, on another
+// bus, for the other to have run (twoBuses). Each event is delivered exactly once and
+// nothing blocks for ever.
+func (in *inst) bodyIndependentHandlers() {
+	s := in.s
+	A, B := bp.Types[0], bp.Types[2]
+	bus := eventbus.New()
+	bus2 := bus
+	if s.twoBuses {
+		bus2 = eventbus.New()
+	}
+	ran := make(chan struct{})
+	opts := evt.SubOpts{Sequential: true, Async: s.async, Ctx: s.ctx}
+	A.SubCustom(bus, func(hctx context.Context, id int) {
+		in.rec.Add("enter", 0, id, "")
+		if s.nestedSeq {
+			B.Pub(bus, 1000+id)
+		} else {
+			vrt.Recv(ran)
+		}
+		in.rec.Add("exit", 0, id, "")
+	}, nil, opts)
+	B.SubCustom(bus2, func(hctx context.Context, id int) {
+		in.rec.Add("enter", 1, id, "")
+		vrt.Point()
+		in.rec.Add("exit", 1, id, "")
+		if s.twoBuses {
+			vrt.Close(ran)
+		}
+	}, nil, opts)
+	vrt.Go(func() {
+		in.rec.Add("call", 100, 0, "")
+		A.Pub(bus, 100)
+		in.rec.Add("ret", 100, 0, "")
+	})
+	if s.twoBuses {
+		vrt.Go(func() {
+			in.rec.Add("call", 1100, 0, "")
+			B.Pub(bus2, 1100)
+			in.rec.Add("ret", 1100, 0, "")
+		})
+	}
+	vrt.Join()
+	bus.Wait()
+	bus2.Wait()
+}
+
 // bodyReplayRace: SubscribeWithReplay(Sequential()) replaying two stored events while a
 // second task publishes; the handler (a slot function) has a scheduling point inside.
 func (in *inst) bodyReplayRace() {
@@ -190,7 +249,7 @@ func (in *inst) Check(res *vrt.Result) []vrt.Violation {
 	}
 	evs := in.rec.Events()
 	nh := 1
-	if in.s.second {
+	if in.s.second || in.s.nestedSeq || in.s.twoBuses {
 		nh = 2
 	}
 	for hid := 0; hid < nh; hid++ {
@@ -218,6 +277,13 @@ func (in *inst) Check(res *vrt.Result) []vrt.Violation {
 		}
 		if in.s.replayRace {
 			continue // only the overlap clause is judged here (delivery across replay/live is C12's subject)
+		}
+		if in.s.nestedSeq || in.s.twoBuses {
+			want := map[int]int{0: 100, 1: 1100}[hid]
+			if cnt[want] != 1 || len(cnt) != 1 {
+				bad("delivery-count", fmt.Sprintf("%s: two independent Sequential handlers: handler %d received %v, want event %d exactly once", kindOf(in.s), hid, seen, want), "")
+			}
+			continue
 		}
 		for t := range in.s.pubs {
 			if in.s.cancelFirst && cnt[100*(t+1)+99] != 0 {
@@ -298,6 +364,9 @@ func shapes(thorough bool) []shape {
 		{name: "sync/3publishers-context-cancelled-while-waiting", cancelWaiter: true, pubs: []int{1, 1, 1}},
 		{name: "sync-ctx/2x2-context-cancelled-while-waiting", ctx: true, cancelWaiter: true, pubs: []int{2, 2}},
 		{name: "async/3publishers-context-cancelled-while-queued", async: true, cancelWaiter: true, pubs: []int{1, 1, 1}},
+		{name: "sync/sequential-handler-publishes-to-another-sequential-handler", nestedSeq: true, pubs: []int{0}},
+		{name: "async/sequential-handler-publishes-to-another-sequential-handler", nestedSeq: true, async: true, pubs: []int{0}},
+		{name: "sync/sequential-handlers-on-two-buses-one-waits-for-the-other", twoBuses: true, pubs: []int{0}},
 		{name: "replay-race/sequential-subscribe-with-replay", replayRace: true, pubs: []int{0}},
 		{name: "replay-race/async-sequential-subscribe-with-replay", replayRace: true, async: true, pubs: []int{0}},
 		{name: "async-ctx/self-republish", async: true, ctx: true, republish: 1, pubs: []int{1}},
